@@ -153,7 +153,10 @@ const baseTime = 1_600_000_000
 
 // New builds a world from its spec.
 func New(spec Spec) *World {
-	w := &World{Spec: spec, Cwd: spec.Cwd, Args: spec.Args, Env: map[string]string{}}
+	w := &World{Spec: spec, Cwd: spec.Cwd, Args: spec.Args, Env: map[string]string{"PWD": spec.Cwd}}
+	for k, v := range spec.Env {
+		w.Env[k] = v
+	}
 	w.nextIno = 2
 	w.Root = &Inode{Ino: 1, Kind: KDir, Perm: 0o755, Children: map[string]*Inode{}, Nlink: 2}
 	w.rng = NewPRNG(Mix(spec.Knobs.Seed, 77))
